@@ -3,6 +3,7 @@
 From Coq Require Import ZArith List Bool.
 Import ListNotations.
 From Verif Require Import Base.PyValue Base.Decimal Model.Eval Model.Order Model.Exec Proofs.EvalProofs.
+From Verif Require Model.PrimsExec Gen.SrcExec Proofs.SrcExec.  (* imported before C01_source_row_loop *)
 From Verif Require Model.Dates Model.StrFuncs Model.PrimsEnv Gen.SrcEnv Proofs.TypingProofs Proofs.EvalLibProofs.  (* imported at the end *)
 Open Scope Z_scope.
 
@@ -237,7 +238,7 @@ Proof. reflexivity. Qed.
    Run on any table, with the WHERE condition and the targets as opaque callables that behave as the model's
    expressions, it leaves in `rows` exactly Exec.scan_nonagg: one list of target values per row that passes WHERE,
    in table order. *)
-From Verif Require Import Model.PrimsExec Gen.SrcExec Proofs.SrcExec.
+Import Verif.Model.PrimsExec Verif.Gen.SrcExec Verif.Proofs.SrcExec.
 
 Theorem C01_source_row_loop : forall (call_ref : nat -> list pv -> pv) (prim : string -> list pv -> PyMini.res pv)
     (ctx_of : row -> pv) (q : query) (ks : list nat) (cw qobj : pv) (table acc : list row),
